@@ -106,6 +106,7 @@ ENABLED_ENTRIES = [
     "sim/gossipsim/ENTRY.py",
     "inpkg/htlcswitch/ENTRY.py",
     "inpkg/contractcourt/ENTRY_C12.py",
+    "inpkg/contractcourt/ENTRY_C13.py",
 ]
 
 
